@@ -662,6 +662,26 @@ def nearest(tt, chain):
             return x.v
     return tt if tt is not None else "und"
 
+P_SPELLINGS = ['class=%(cls)s', 'class="hl" lang="%(lang)s"', 'lang="%(lang)s" class="hl"', 'class="nodef" lang="%(lang)s"',
+               'lang="%(lang)s" class="nodef"', 'lang="%(lang)s"', 'class="hl" id="x" lang="%(lang)s"']
+
+
+def sami_doc_lang_attr(rng, nl, syncs, starts):
+    """tg.sami_doc with, for the languages after the first (two-letter names: what a lang= attribute files a cue under),
+    every <P> spelled in one of P_SPELLINGS; .hl is a stylesheet class without a lang, .nodef is not defined"""
+    css = "\n".join(".%s {Name: L%d; lang: %s; SAMI_Type: CC;}" % (cls, i, lang)
+                    for i, (cls, lang) in enumerate(tg.SAMI_LANGS[:nl]))
+    out = ['<SAMI><HEAD><TITLE>t</TITLE><STYLE TYPE="text/css"><!--\nP { margin-left: 1pt; }\n%s\n.hl {color: red;}\n--></STYLE></HEAD><BODY>' % css]
+    for (pad, ms, present), st in zip(syncs, starts):
+        ps = []
+        for li, txt in sorted(present.items()):
+            cls, lang = tg.SAMI_LANGS[li]
+            a = "class=%s" % cls if li == 0 else rng.choice(P_SPELLINGS) % {"cls": cls, "lang": lang}
+            ps.append("<P %s>%s</P>" % (a, ("text %d %d" % (ms, li)) if txt else "&nbsp;"))
+        out.append("<SYNC start=%s>%s</SYNC>" % (st, "".join(ps)))
+    out.append("</BODY></SAMI>")
+    return "\n".join(out)
+
 
 def stream_sami_tree(ctx, acc, n):
     cases = [tg.gen_sami(ctx.rng) for _ in range(n)]
@@ -678,6 +698,13 @@ def stream_sami_tree(ctx, acc, n):
     for (nl, syncs), o in zip(cases, outs):
         starts = ["0" * pad + str(ms) for (pad, ms, _) in syncs]
         doc = tg.sami_doc(nl, syncs, starts)
+        if nl > 1 and ctx.rng.random() < 0.5:
+            # last round: <P> whose language comes from a lang= attribute next to a NON-language class (defined in the
+            # stylesheet without a lang, or undefined), in either attribute order, mixed with class=<language class>
+            doc = sami_doc_lang_attr(ctx.rng, nl, syncs, starts)
+            dd = acc.res["distribution"]
+            dd["sami_documents_with_lang_attribute_beside_a_non_language_class"] = \
+                dd.get("sami_documents_with_lang_attribute_beside_a_non_language_class", 0) + 1
         model, expected, dom = r_result(o[0]), r_result(o[1]), o[2] == 1
         obs = impl.call(lambda: dict_obs(SAMIReader().read(doc)))
         check_reuse(acc, "sami-tree", {"input": None}, obs, doc)
